@@ -52,6 +52,14 @@ func (s *S2) Close() error {
 	return recClose(s.ID, s.Run)
 }
 
+// W is a service type that is registered BY VALUE (instance values that are not pointers)
+type W struct {
+	ID  int
+	Reg string
+}
+
+var typW = reflect.TypeOf(W{})
+
 type I0 interface{ Tag0() int }
 type I1 interface{ Tag1() int }
 
@@ -87,6 +95,8 @@ func typeByName(n string) reflect.Type {
 		return typScope
 	case "prov":
 		return typProvider
+	case "W":
+		return typW
 	case "V":
 		return typVoid // functions without result are registered under struct{}
 	}
@@ -160,6 +170,8 @@ func idOf(v any) int {
 			return 0
 		}
 		return x.ID
+	case W:
+		return x.ID
 	case nil:
 		return 0
 	}
@@ -208,6 +220,11 @@ func outIdent(r *RegCfg, o int) (reflect.Type, any, bool) {
 			return nil, nil, false
 		}
 		return typI0, name(), o == 1
+	case "instv":
+		if r.Group != "-" && r.Group != "" {
+			return nil, nil, false
+		}
+		return typW, name(), o == 1
 	case "ctor", "ctorerr", "inst":
 		if r.Group != "-" && r.Group != "" {
 			return nil, nil, false
@@ -1369,6 +1386,17 @@ func serviceValue(r *RegCfg) (any, error) {
 			emit(M{"ev": "inst", "reg": r.ID, "id": id})
 		}
 		return newS(r.Slot, id, r.ID), nil
+	}
+	if r.Shape == "instv" {
+		R.mu.Lock()
+		R.nextID++
+		id := R.nextID
+		R.instReg[id] = r.ID
+		R.mu.Unlock()
+		if !R.quiet {
+			emit(M{"ev": "inst", "reg": r.ID, "id": id})
+		}
+		return W{ID: id, Reg: r.ID}, nil
 	}
 	if r.Kind != "" {
 		return kindValue(r)
